@@ -51,7 +51,8 @@ func sFnv32(b []byte) uint32 {
 
 type srvOrd struct {
 	mu      sync.Mutex
-	wmu     sync.Mutex // serialises the peer's writes
+	stop    chan struct{}
+	wch     chan func() // the peer's writes, executed by one writer goroutine (no mutex is ever held across a blocking pipe write)
 	modeOf  map[uint32]string
 	queue   map[uint32]chan func() // per stream: the handler's calls run one after the other, like a real handler goroutine
 	st      transport.ServerTransport
@@ -81,7 +82,7 @@ func bi01(b bool) int {
 }
 
 func newSrvOrd() *srvOrd {
-	s := &srvOrd{queue: map[uint32]chan func(){}, modeOf: map[uint32]string{}, streams: map[uint32]*transport.ServerStream{}, wr: map[uint32]uint64{}, rdDone: make(chan struct{}), hsDone: make(chan struct{})}
+	s := &srvOrd{stop: make(chan struct{}), wch: make(chan func(), 4096), queue: map[uint32]chan func(){}, modeOf: map[uint32]string{}, streams: map[uint32]*transport.ServerStream{}, wr: map[uint32]uint64{}, rdDone: make(chan struct{}), hsDone: make(chan struct{})}
 	s.ctx, s.cancel = context.WithCancel(context.Background())
 	srvConn, peer := net.Pipe()
 	s.peer = peer
@@ -94,9 +95,25 @@ func newSrvOrd() *srvOrd {
 		for {
 			f, err := s.fr.ReadFrame()
 			if err != nil {
+				if err != io.EOF && err != io.ErrClosedPipe {
+					s.mu.Lock()
+					s.frames = append(s.frames, "ERR:"+strings.ReplaceAll(err.Error(), " ", "_"))
+					s.mu.Unlock()
+				}
+				io.Copy(io.Discard, peer) // never let the server block on a peer that stopped reading
 				return
 			}
 			s.record(f)
+		}
+	}()
+	go func() {
+		for {
+			select {
+			case f := <-s.wch:
+				f()
+			case <-s.stop:
+				return
+			}
 		}
 	}()
 	// client preface + SETTINGS, then the server transport
@@ -162,7 +179,7 @@ func (s *srvOrd) record(f http2.Frame) {
 		if !f.IsAck() {
 			// answer BDP / keepalive pings like a real peer would (from a fresh goroutine: the reader must keep reading)
 			d := f.Data
-			go func() { s.wmu.Lock(); s.fr.WritePing(true, d); s.wmu.Unlock() }()
+			s.send(func() { s.fr.WritePing(true, d) })
 		}
 	case *http2.WindowUpdateFrame:
 		out = fmt.Sprintf("W:%d:%d", id, f.Increment)
@@ -188,7 +205,7 @@ func (s *srvOrd) take() string {
 	// frames that do not belong to a stream's outbound data path are dropped here (SETTINGS acks, pings, window updates)
 	var fr []string
 	for _, f := range s.frames {
-		if strings.HasPrefix(f, "D:") || strings.HasPrefix(f, "H:") || strings.HasPrefix(f, "K:") || strings.HasPrefix(f, "R:") {
+		if strings.HasPrefix(f, "D:") || strings.HasPrefix(f, "H:") || strings.HasPrefix(f, "K:") || strings.HasPrefix(f, "R:") || strings.HasPrefix(f, "ERR:") {
 			fr = append(fr, f)
 		}
 	}
@@ -225,9 +242,8 @@ func (s *srvOrd) Op(f []string) string {
 		for _, hf := range fields {
 			s.henc.WriteField(hf)
 		}
-		s.wmu.Lock()
-		s.fr.WriteHeaders(http2.HeadersFrameParam{StreamID: id, BlockFragment: s.hbuf.Bytes(), EndHeaders: true})
-		s.wmu.Unlock()
+		blk := append([]byte(nil), s.hbuf.Bytes()...)
+		s.send(func() { s.fr.WriteHeaders(http2.HeadersFrameParam{StreamID: id, BlockFragment: blk, EndHeaders: true}) })
 	case "write":
 		id := u32(f[1])
 		n := int(u32(f[2]))
@@ -272,21 +288,13 @@ func (s *srvOrd) Op(f []string) string {
 		code := u32(f[2])
 		s.enqueue(id, func() { s.doStatus(str, id, code) })
 	case "pwu":
-		s.wmu.Lock()
-		s.fr.WriteWindowUpdate(u32(f[1]), u32(f[2]))
-		s.wmu.Unlock()
+		s.send(func() { s.fr.WriteWindowUpdate(u32(f[1]), u32(f[2])) })
 	case "pset":
-		s.wmu.Lock()
-		s.fr.WriteSettings(http2.Setting{ID: http2.SettingInitialWindowSize, Val: u32(f[1])})
-		s.wmu.Unlock()
+		s.send(func() { s.fr.WriteSettings(http2.Setting{ID: http2.SettingInitialWindowSize, Val: u32(f[1])}) })
 	case "prst":
-		s.wmu.Lock()
-		s.fr.WriteRSTStream(u32(f[1]), http2.ErrCode(u32(f[2])))
-		s.wmu.Unlock()
+		s.send(func() { s.fr.WriteRSTStream(u32(f[1]), http2.ErrCode(u32(f[2]))) })
 	case "pdata":
-		s.wmu.Lock()
-		s.fr.WriteData(u32(f[1]), f[3] == "1", make([]byte, u32(f[2])))
-		s.wmu.Unlock()
+		s.send(func() { s.fr.WriteData(u32(f[1]), f[3] == "1", make([]byte, u32(f[2]))) })
 	case "sleep":
 		time.Sleep(time.Duration(u32(f[1])) * time.Millisecond)
 	default:
@@ -294,6 +302,13 @@ func (s *srvOrd) Op(f []string) string {
 	}
 	settle()
 	return "ok " + s.take()
+}
+
+func (s *srvOrd) send(f func()) {
+	select {
+	case s.wch <- f:
+	case <-s.stop:
+	}
 }
 
 func (s *srvOrd) enqueue(id uint32, f func()) {
@@ -327,6 +342,7 @@ func (s *srvOrd) Close() {
 		s.st.Close(fmt.Errorf("verif: end of case"))
 	}
 	s.cancel()
+	close(s.stop)
 	s.peer.Close()
 	<-s.rdDone
 	<-s.hsDone
